@@ -17,7 +17,7 @@ use std::sync::Arc;
 
 #[kani::proof]
 #[kani::unwind(4)]
-fn c17_skip_classification() {
+pub(crate) fn c17_skip_classification() {
     let tt: TerminalIndex = kani::any();
     let ss: bool = kani::any();
     let fname = Arc::new(PathBuf::new());
@@ -112,7 +112,7 @@ macro_rules! pop_n {
     ($($name:ident: $len:expr;)*) => { $(
         #[kani::proof]
         #[kani::unwind(9)]
-        fn $name() { pop_n_body($len); }
+        pub(crate) fn $name() { pop_n_body($len); }
     )* };
 }
 pop_n! { c17_pop_n_len0: 0; c17_pop_n_len1: 1; c17_pop_n_len2: 2; c17_pop_n_len3: 3; c17_pop_n_len4: 4; c17_pop_n_len5: 5; c17_pop_n_len6: 6; }
@@ -142,20 +142,65 @@ fn split_off_body(len: usize) {
 
 #[kani::proof]
 #[kani::unwind(9)]
-fn c02_split_off_len4() {
+pub(crate) fn c02_split_off_len4() {
     split_off_body(4);
 }
 
 #[kani::proof]
 #[kani::unwind(9)]
-fn c02_split_off_len6() {
+pub(crate) fn c02_split_off_len6() {
     split_off_body(6);
+}
+
+/// `TokenStream::is_state_skip_token` (through the cfg(kani) forwarder): a token type is flagged
+/// in a scanner state exactly when that state's skip list contains it - whatever the order of
+/// the list, for states with and without a list.
+static mut SKIP0: [TerminalIndex; 3] = [0; 3];
+static mut SKIP1: [TerminalIndex; 3] = [0; 3];
+static mut SKIP_LISTS: [&'static [TerminalIndex]; 2] = [&[], &[]];
+
+#[kani::proof]
+#[kani::unwind(6)]
+pub(crate) fn c17_state_skip_lookup() {
+    use crate::verif_kani::support::{MatchFn, VerifScanner};
+    let l0: [TerminalIndex; 3] = kani::any();
+    let l1: [TerminalIndex; 3] = kani::any();
+    let n0: usize = kani::any();
+    let n1: usize = kani::any();
+    kani::assume(n0 <= 3 && n1 <= 3);
+    let lists: &'static [&'static [TerminalIndex]] = unsafe {
+        SKIP0 = l0;
+        SKIP1 = l1;
+        SKIP_LISTS[0] = &SKIP0[..n0];
+        SKIP_LISTS[1] = &SKIP1[..n1];
+        &SKIP_LISTS
+    };
+    let scanner = VerifScanner::new();
+    static MF: MatchFn = VerifScanner::match_function;
+    let file_name = Arc::new(PathBuf::new());
+    let iter = crate::TokenIter::new(scnr2::ScannerImpl::find_matches_with_position(scanner.scanner_impl.clone(), "", 0, &MF), "", file_name.clone(), 1);
+    let ts = crate::TokenStream::verif_from_parts("", file_name, iter, 1, lists);
+    let tt: TerminalIndex = kani::any();
+    let state: usize = kani::any();
+    kani::assume(state <= 2);
+    let got = ts.verif_is_state_skip_token(tt, state);
+    let mut exp = false;
+    let mut i = 0;
+    while i < 3 {
+        if state == 0 && i < n0 && l0[i] == tt { exp = true; }
+        if state == 1 && i < n1 && l1[i] == tt { exp = true; }
+        i += 1;
+    }
+    assert!(got == exp);
+    kani::cover!(got && state == 1 && n1 == 3 && l1[0] > l1[1]);
+    kani::cover!(!got && state == 2);
+    core::mem::forget(ts);
 }
 
 /// vacuity twin: must FAIL
 #[kani::proof]
 #[kani::unwind(9)]
-fn c17_kernels_twin_must_fail() {
+pub(crate) fn c17_kernels_twin_must_fail() {
     let mut st: ParseTreeStack<Flag> = ParseTreeStack::new();
     st.push(Flag { id: 0, counted: true });
     let out = st.pop_n(1, |f| f.counted);
